@@ -64,6 +64,18 @@ func (pass *InlineObjectsWithTypes) Process(schemas []*ast.Schema) ([]*ast.Schem
 		})
 	}
 
+	// objects that contain themselves (directly or through other inlined
+	// objects) can not be inlined: there would be no end to it.
+	var selfContained []string
+	pass.objectsToInline.Iterate(func(ref string, def ast.Type) {
+		if pass.containsItself(ref, def, map[string]struct{}{}) {
+			selfContained = append(selfContained, ref)
+		}
+	})
+	for _, ref := range selfContained {
+		pass.objectsToInline.Remove(ref)
+	}
+
 	visitor := &Visitor{
 		OnRef: pass.processRef,
 	}
@@ -82,7 +94,48 @@ func (pass *InlineObjectsWithTypes) Process(schemas []*ast.Schema) ([]*ast.Schem
 	return newSchemas, nil
 }
 
-func (pass *InlineObjectsWithTypes) processRef(_ *Visitor, _ *ast.Schema, def ast.Type) (ast.Type, error) {
+// containsItself tells whether the given type refers to `ref`, directly or
+// through other objects that will be inlined.
+func (pass *InlineObjectsWithTypes) containsItself(ref string, def ast.Type, visited map[string]struct{}) bool {
+	switch def.Kind {
+	case ast.KindRef:
+		target := def.Ref.String()
+		if target == ref {
+			return true
+		}
+		if _, seen := visited[target]; seen || !pass.objectsToInline.Has(target) {
+			return false
+		}
+		visited[target] = struct{}{}
+		return pass.containsItself(ref, pass.objectsToInline.Get(target), visited)
+	case ast.KindArray:
+		return pass.containsItself(ref, def.Array.ValueType, visited)
+	case ast.KindMap:
+		return pass.containsItself(ref, def.Map.IndexType, visited) || pass.containsItself(ref, def.Map.ValueType, visited)
+	case ast.KindDisjunction:
+		for _, branch := range def.Disjunction.Branches {
+			if pass.containsItself(ref, branch, visited) {
+				return true
+			}
+		}
+	case ast.KindIntersection:
+		for _, branch := range def.Intersection.Branches {
+			if pass.containsItself(ref, branch, visited) {
+				return true
+			}
+		}
+	case ast.KindStruct:
+		for _, field := range def.Struct.Fields {
+			if pass.containsItself(ref, field.Type, visited) {
+				return true
+			}
+		}
+	}
+
+	return false
+}
+
+func (pass *InlineObjectsWithTypes) processRef(visitor *Visitor, schema *ast.Schema, def ast.Type) (ast.Type, error) {
 	if !pass.objectsToInline.Has(def.Ref.String()) {
 		return def, nil
 	}
@@ -92,5 +145,6 @@ func (pass *InlineObjectsWithTypes) processRef(_ *Visitor, _ *ast.Schema, def as
 	typeDef.Nullable = typeDef.Nullable || def.Nullable
 	typeDef.AddToPassesTrail(fmt.Sprintf("InlineObjectsWithTypes[original=%s]", def.Ref.String()))
 
-	return typeDef, nil
+	// the inlined type might itself refer to objects that have to be inlined
+	return visitor.VisitType(schema, typeDef)
 }
